@@ -325,6 +325,31 @@ def _gen_add(rng, E, kid_id, allow_bad=False):
     return {"op": "add", "id": kid_id, "assoc": assoc, "kind": kind, "vals": vals}
 
 
+def _maybe_shape(rng, op, kind, assoc, n, allow_long=True):
+    """give the value array of a set / add operation a 2-D shape (numeric kinds): a column, a row, a factorisation of its
+    length, or k values per element ((n, k) / (k, n): n * k entries, which must be refused like any longer array)"""
+    if kind == "text" or assoc == "OBJECT" or not rng.chance(40):
+        return
+    ln = len(op["vals"])
+    style = rng.weighted([("col", 20), ("row", 20), ("fact", 15), ("nk", 28 if allow_long and n >= 1 else 0), ("kn", 17 if allow_long and n >= 1 else 0)])
+    if style in ("nk", "kn"):
+        k = rng.range(2, 3)
+        op["vals"] = _gen_vals(rng, kind, n * k)
+        op["shape"] = [n, k] if style == "nk" else [k, n]
+        return
+    if ln == 0:
+        return
+    if style == "col":
+        op["shape"] = [ln, 1]
+    elif style == "row":
+        op["shape"] = [1, ln]
+    else:
+        divs = [d for d in range(2, ln) if ln % d == 0]
+        if divs:
+            d = rng.choice(divs)
+            op["shape"] = [d, ln // d]
+
+
 def _gen_idx(rng, E, n, what):
     """index set for a removal of `what` in {'v','c'}"""
     if n == 0:
@@ -385,7 +410,7 @@ def _gen_case(rng):
         case["ops"].append(op)
         E, _ = spec_apply(E, op)
     for _ in range(rng.range(2, 7)):
-        kinds = [("rv", 35), ("rc", 12 if arity else 0), ("set", 15 if E["kids"] else 0), ("add", 10), ("copy", 13), ("reopen", 15)]
+        kinds = [("rv", 35), ("rc", 12 if arity else 0), ("set", 19 if E["kids"] else 0), ("add", 10), ("copy", 13), ("reopen", 13)]
         k = rng.weighted(kinds)
         if k == "rv":
             op = {"op": "rv", "idx": _gen_idx(rng, E, len(E["verts"]), "v")}
@@ -400,8 +425,11 @@ def _gen_case(rng):
             if kid["kind"] == "text" and ln < 1:
                 ln = max(n, 1)  # never assign an empty text array (it cannot be written; with n = 0 this one is refused)
             op = {"op": "set", "id": kid["id"], "vals": _gen_vals(rng, kid["kind"], ln)}
+            _maybe_shape(rng, op, kid["kind"], kid["assoc"], n)
         elif k == "add":
             op = _gen_add(rng, E, next_id)
+            if op["vals"] is not None:
+                _maybe_shape(rng, op, op["kind"], op["assoc"], _count(E, op["assoc"]), allow_long=False)
             next_id += 1
         elif k == "copy":
             n, nc = len(E["verts"]), len(E["cells"])
@@ -433,9 +461,35 @@ def _gen_case(rng):
     return case
 
 
+def _gen_dcopy(rng):
+    """Data.copy(parent, mask) of one data child onto its own parent or onto ANOTHER object (same size, smaller, larger)"""
+    assoc = "VERTEX" if rng.chance(55) else "CELL"
+    n = rng.range(1, 10)
+    kind = rng.weighted([("float", 45), ("int", 15), ("bool", 10), ("ref", 10), ("text", 20)])
+    vals = _gen_vals(rng, kind, n)
+    st = rng.weighted([("rand", 62), ("all", 8), ("none", 7), ("one", 8), ("notprefix", 10), ("shape", 5)])
+    if st == "all":
+        mask = [1] * n
+    elif st == "none":
+        mask = [0] * n
+    elif st == "one":
+        mask = [0] * n
+        mask[rng.below(n)] = 1
+    elif st == "notprefix":
+        mask = [0] + [1] * (n - 1)
+    elif st == "shape":
+        mask = [1] * (n + 1)
+    else:
+        mask = [int(rng.chance(55)) for _ in range(n)]
+    tg = rng.weighted([("self", 30), ("equal", 40), ("smaller", 15), ("larger", 15)])
+    target = "self" if tg == "self" else {"n": n if tg == "equal" else rng.range(1, max(1, n - 1)) if tg == "smaller" else n + rng.range(1, 3)}
+    return {"kind": "dcopy", "assoc": assoc, "n": n, "dkind": kind, "vals": vals, "mask": mask, "target": target}
+
+
 def generate(rng, tier):
     n = 220 if tier == "quick" else 5000
-    return [_gen_case(rng) for _ in range(n)]
+    nd = 80 if tier == "quick" else 1500
+    return [_gen_case(rng) for _ in range(n)] + [_gen_dcopy(rng) for _ in range(nd)]
 
 
 # ----------------------------------------------------------------------------- implementation driver
@@ -510,6 +564,10 @@ def _arr(vals, kind):
     return np.array([bool(v) for v in vals], dtype=bool)
 
 
+def _shaped(arr, op):
+    return arr.reshape(tuple(op["shape"])) if op.get("shape") else arr
+
+
 def G_id(name):
     return int(name[1:]) if name.startswith("d") and name[1:].isdigit() else None
 
@@ -538,6 +596,13 @@ def drive_one(case, work):
         return uuid.UUID(bytes=hashlib.sha256(seed + counter[0].to_bytes(8, "big")).digest()[:16], version=4)
 
     uuid.uuid4 = fake_uuid4
+    if case.get("kind") == "dcopy":
+        try:
+            return _drive_dcopy(case, path)
+        finally:
+            uuid.uuid4 = real_uuid4
+            if os.path.exists(path):
+                os.remove(path)
     ws = Workspace.create(path)
     steps, executed = [], []
     try:
@@ -562,12 +627,12 @@ def drive_one(case, work):
                     obj.remove_cells(list(op["idx"]))
                 elif k == "set":
                     ch = [c for c in obj.children if getattr(c, "name", None) == f"d{op['id']}"][0]
-                    ch.values = _arr(op["vals"], kinds[op["id"]])
+                    ch.values = _shaped(_arr(op["vals"], kinds[op["id"]]), op)
                 elif k == "add":
                     kinds[op["id"]] = op["kind"]
                     spec = {"association": op["assoc"]}
                     if op["vals"] is not None:
-                        spec["values"] = _arr(op["vals"], op["kind"])
+                        spec["values"] = _shaped(_arr(op["vals"], op["kind"]), op)
                     if op["kind"] == "text":
                         spec["type"] = "text"
                     elif op["kind"] == "ref":
@@ -619,6 +684,60 @@ def drive_one(case, work):
             os.remove(path)
 
 
+def _drive_dcopy(case, path):
+    import numpy as np
+    from geoh5py import Workspace
+    from geoh5py.objects import Curve, Points
+
+    def make(ws, n, name):
+        if case["assoc"] == "VERTEX":
+            return Points.create(ws, name=name, vertices=np.c_[np.arange(float(n)), np.zeros(n), np.zeros(n)])
+        return Curve.create(ws, name=name, vertices=np.c_[np.arange(float(n + 1)), np.zeros(n + 1), np.zeros(n + 1)],
+                            cells=np.c_[np.arange(n), np.arange(1, n + 1)].astype("int32"))
+
+    ws = Workspace.create(path)
+    out = {}
+    try:
+        src = make(ws, case["n"], "src")
+        spec = {"association": case["assoc"], "values": _arr(case["vals"], case["dkind"])}
+        if case["dkind"] == "text":
+            spec["type"] = "text"
+        elif case["dkind"] == "ref":
+            spec["type"] = "referenced"
+            spec["value_map"] = {i: f"unit{i}" for i in range(1, 6)}
+        kid = src.add_data({"d1": spec})
+        tgt = src if case["target"] == "self" else make(ws, case["target"]["n"], "other")
+        out["n_target"] = int(tgt.n_vertices if case["assoc"] == "VERTEX" else tgt.n_cells)
+        try:
+            cp = kid.copy(parent=tgt, mask=np.array(case["mask"], dtype=bool), name="cp")
+            v = cp.values
+            out["vals"] = None if v is None else _canon_vals(v)
+            out["err"] = None
+        except Exception as e:  # noqa: BLE001
+            out["err"] = ERR_ALIAS.get(type(e).__name__, type(e).__name__)
+        sv = kid.values
+        out["src_after"] = None if sv is None else _canon_vals(sv)
+        tuid = tgt.uid
+        ws.close()
+        ws = Workspace(path)
+        tgt = ws.get_entity(tuid)[0]
+        got = [c for c in tgt.children if getattr(c, "name", None) == "cp"]
+        if got:
+            try:
+                v = got[0].values
+                out["reopen"] = {"scalar": True} if isinstance(v, (str, bytes)) else None if v is None else _canon_vals(v)
+            except Exception as e:  # noqa: BLE001
+                out["reopen"] = {"error": type(e).__name__}
+        else:
+            out["reopen"] = "absent"
+        return out
+    finally:
+        try:
+            ws.close()
+        except Exception:  # noqa: BLE001
+            pass
+
+
 # ----------------------------------------------------------------------------- Coq case terms
 def _pt(p):
     return "(" + ", ".join(cz(int(x)) for x in p) + ")"
@@ -626,6 +745,14 @@ def _pt(p):
 
 def _vals_term(vals):
     return clist(copt(v, cz) for v in vals)
+
+
+def _op_vals_term(op):
+    """values of a set / add operation as the model sees them: a 2-D array is flattened row by row (np.ravel) first"""
+    if not op.get("shape"):
+        return _vals_term(op["vals"])
+    r, c = op["shape"]
+    return "(concat %s)" % clist(_vals_term(op["vals"][i * c:(i + 1) * c]) for i in range(r))
 
 
 def _mask_term(m):
@@ -676,10 +803,10 @@ def _op_term(op, snap):
     if k == "rc":
         return "RemoveCells %s" % clist(cz(i) for i in op["idx"])
     if k == "set":
-        return "SetValues %s %s" % (cnat(op["id"]), _vals_term(op["vals"]))
+        return "SetValues %s %s" % (cnat(op["id"]), _op_vals_term(op))
     if k == "add":
         return "AddData %s %s %s %s" % (cnat(op["id"]), ASSOC[op["assoc"]], KIND[op["kind"]],
-                                        "None" if op["vals"] is None else "(Some %s)" % _vals_term(op["vals"]))
+                                        "None" if op["vals"] is None else "(Some %s)" % _op_vals_term(op))
     if k == "copy":
         return "MaskedCopy %s %s" % (_mask_term(op.get("mask")), _mask_term(op.get("cmask")))
     if k == "reopen":
@@ -702,7 +829,26 @@ def case_term(case, obs):
         return "false"
 
 
+def _dcopy_term(case, obs):
+    if "err" not in obs:
+        return "false"
+    if obs["err"] is not None:
+        if obs["err"] not in ERRS:
+            return "false"
+        o = "Err %s" % obs["err"]
+    elif obs["vals"] is None:
+        o = "Ok None"
+    else:
+        if any(isinstance(x, dict) for x in obs["vals"]):
+            return "false"
+        o = "Ok (Some %s)" % _vals_term(obs["vals"])
+    kid = "{| kid_id := 1; kassoc := %s; kkind := %s; kvals := Some %s |}" % (ASSOC[case["assoc"]], KIND[case["dkind"]], _vals_term(case["vals"]))
+    return "dcopy_agrees %s %s %s %s (%s)" % (_flags_term(), cnat(obs["n_target"]), clist(cbool(bool(b)) for b in case["mask"]), kid, o)
+
+
 def _case_term(case, obs):
+    if case.get("kind") == "dcopy":
+        return _dcopy_term(case, obs)
     if "steps" not in obs:
         return "false"
     # the object as created must be the object asked for
@@ -720,6 +866,10 @@ def _case_term(case, obs):
 
 
 def model_term(case):
+    if case.get("kind") == "dcopy":
+        n = case["n"] if case["target"] == "self" else case["target"]["n"]
+        kid = "{| kid_id := 1; kassoc := %s; kkind := %s; kvals := Some %s |}" % (ASSOC[case["assoc"]], KIND[case["dkind"]], _vals_term(case["vals"]))
+        return "data_copy_obs %s %s %s %s" % (_flags_term(), cnat(n), clist(cbool(bool(b)) for b in case["mask"]), kid)
     ops = []
     for op in case["ops"]:
         if op["op"] == "reopen":
@@ -788,9 +938,45 @@ def _expected_snapshot_mismatch(E, snap, after_reopen):
     return None
 
 
+def _oracle_dcopy(case, obs):
+    n, mask, vals, kind = case["n"], case["mask"], case["vals"], case["dkind"]
+    nt = obs["n_target"]
+    nd = _nd(kind)
+    fails = []
+    if obs.get("src_after") != vals:
+        fails.append({"key": "dcopy-source-changed", "what": f"source values {obs.get('src_after')} != {vals} after the copy"})
+    if len(mask) != n:
+        if obs["err"] is None:
+            fails.append({"key": "dcopy-bad-mask-accepted", "what": f"mask of {len(mask)} entries accepted for {n} values"})
+        return fails
+    kept = [v for v, b in zip(vals, mask) if b]
+    if obs["err"] is not None:
+        if nt >= n and not (kind == "text" and not kept and nt == n):
+            # every kept element has a place at its own index: nothing to refuse (an all-blank text copy is not written: finding)
+            key = "text-empty-unwritable" if kind == "text" and obs["err"] == "IndexError" else "dcopy-refused"
+            fails.append({"key": key, "what": f"copy of {n} values onto a parent with {nt} elements raised {obs['err']}"})
+        return fails
+    got = obs["vals"]
+    if got is None:
+        return fails + [{"key": "dcopy-no-values", "what": "the copy has no values"}]
+    if nt >= n:
+        want = [v if b else nd for v, b in zip(vals, mask)]
+        if got[:n] != want or any(x != nd for x in got[n:]) or (kind != "text" and len(got) != nt):
+            fails.append({"key": "dcopy-values-moved", "what": f"copy onto a parent with {nt} elements holds {got}; every kept element must keep its value at its own index: {want}"})
+    else:
+        if got[:len(kept)] != kept or (kind != "text" and len(got) != nt):
+            fails.append({"key": "dcopy-compact-wrong", "what": f"copy onto a smaller parent ({nt}) holds {got}, kept values {kept}"})
+    ro = obs.get("reopen")
+    if not fails and kind != "text" and ro != got:
+        fails.append({"key": "dcopy-lost-on-reopen", "what": f"after re-open the copy reads {ro}, live {got}"})
+    return fails
+
+
 def oracle(case, obs):
     if "crash" in obs:
         return [{"key": "driver-crash", "what": obs["crash"][:300]}]
+    if case.get("kind") == "dcopy":
+        return _oracle_dcopy(case, obs)
     fails = []
     E = spec_new(case)
     if obs["init"]["verts"] != [list(p) for p in case["verts"]] or obs["init"]["cells"] != [list(c) for c in case["cells"]]:
@@ -919,13 +1105,21 @@ def _interesting(case, obs):
 
 
 def nontrivial(case, obs):
+    if case.get("kind") == "dcopy":
+        return obs.get("err") is None and 0 < sum(case["mask"]) < len(case["mask"])
     return _interesting(case, obs)
 
 
 def histogram(cases, obs):
     h = {"cls": {}, "n_vertices": {}, "ops": {}, "errors": {}, "stopped": {}, "unreferenced_vertices": 0, "unordered_cells": 0,
-         "rv_touching_no_cell": 0, "valueless_children": 0, "executed_steps": 0}
+         "rv_touching_no_cell": 0, "valueless_children": 0, "executed_steps": 0, "shaped_assignments": 0, "data_copy": {}}
     for c, o in zip(cases, obs):
+        if c.get("kind") == "dcopy":
+            t = "self" if c["target"] == "self" else ("equal" if c["target"]["n"] == c["n"] else "smaller" if c["target"]["n"] < c["n"] else "larger")
+            r = t + ":" + ("ok" if o.get("err") is None else str(o.get("err")))
+            h["data_copy"][r] = h["data_copy"].get(r, 0) + 1
+            continue
+        h["shaped_assignments"] += sum(1 for op in c["ops"] if op.get("shape"))
         h["cls"][c["cls"]] = h["cls"].get(c["cls"], 0) + 1
         k = str(len(c["verts"]))
         h["n_vertices"][k] = h["n_vertices"].get(k, 0) + 1
